@@ -231,9 +231,9 @@ def run_one(rec, A, L, kind, tier, seed):
                     continue
                 T = y0_ref[0].shape[1]
                 for target in (None, 0, T - 1, slice(0, 2), -1, -T, slice(-2, None), slice(1, None)):
-                    for hyp in (False, True):
+                    for hyp in ((False, True) if target is not None else (False, True, 0, numpy.bool_(False), numpy.bool_(True), 1)):
                         case = dict(fn="saturation_mutagenesis", A=A, L=L, N=N, start=s, end=e, kind=kind, args=use_args,
-                                    target=repr(target), hypothetical=hyp, seqs=codes.tolist())
+                                    target=repr(target), hypothetical=repr(hyp), seqs=codes.tolist())
                         tag = ("default_end" if e == -1 and s > 0 else "window") + ":" + kind
                         st, attr = call(saturation_mutagenesis, model, X, args=args, start=s, end=e, batch_size=7, target=target,
                                         hypothetical=hyp, device="cpu")
